@@ -482,7 +482,10 @@ def gen_cases(rng, add, scale):
         if rng.random() < 0.6:
             maps = [(B + "/r1", "/x"), (B + "/r2", rng.choice(["/x", "/x/y", "/q"]))] + maps[:2]
         # chain files: each includes the next through a request of a random flavour
-        chain = [B + "/r1/c1.sqf", B + "/r1/sub/c2.sqf", B + "/r2/y/c3.sqf"][:rng.choice([1, 2, 3])]
+        # the including files carry every kind of name: the usual extension, another one, two dots, none at all (script_macros, defs) -
+        # what a relative request is taken against is the DIRECTORY of the including file, whatever the file is called (tenth seed round)
+        ext = lambda: rng.choice([".sqf", ".sqf", ".hpp", "", "", ".inc.h", "_defs"])
+        chain = [B + "/r1/c1" + ext(), B + "/r1/sub/c2" + ext(), B + "/r2/y/c3" + ext()][:rng.choice([1, 2, 3])]
         target = rng.choice(sorted(f for f in t.files if f.startswith(B + "/r") and f.endswith(".sqf")) or [B + "/r1/a.sqf"])
         nxt = chain[1:] + [target]
         spec0 = Spec(t, maps)
